@@ -1,5 +1,5 @@
 (* GENERATED on every run by harness/C07.py translate() with translate/pyexpr2coq.py from
-   /tmp/mt-17425-8752/psiaudio/util.py and /tmp/mt-17425-8752/psiaudio/calibration.py - do not edit.
+   /repo/psiaudio/util.py and /repo/psiaudio/calibration.py - do not edit.
    sens = self.get_sens(frequency); interp = self._interp(frequency); constructors: the `sensitivity` they pass on. *)
 From Coq Require Import Reals.
 From PV Require Import Calib.RBase.
@@ -23,51 +23,51 @@ Definition cal_get_db (sens voltage : R) : R :=
 (* psiaudio/calibration.py:120  BaseCalibration.get_sf *)
 Definition cal_get_sf (sens level attenuation : R) : R :=
   (pow10 (Rdiv (Rplus (Rminus level sens) attenuation) 20)).
-(* psiaudio/calibration.py:134  BaseCalibration.get_attenuation *)
+(* psiaudio/calibration.py:132  BaseCalibration.get_attenuation *)
 Definition cal_get_attenuation (sens voltage level : R) : R :=
   (Rminus (cal_get_db sens voltage) level).
-(* psiaudio/calibration.py:137  BaseCalibration.get_gain *)
+(* psiaudio/calibration.py:135  BaseCalibration.get_gain *)
 Definition cal_get_gain (sens level attenuation : R) : R :=
   (util_db (cal_get_sf sens level attenuation) 1).
-(* psiaudio/calibration.py:237  FlatCalibration.get_sens *)
+(* psiaudio/calibration.py:235  FlatCalibration.get_sens *)
 Definition flat_get_sens (sensitivity fixed_gain : R) : R :=
   (Rminus sensitivity fixed_gain).
-(* psiaudio/calibration.py:334  InterpCalibration.get_sens *)
+(* psiaudio/calibration.py:332  InterpCalibration.get_sens *)
 Definition interp_get_sens (interp fixed_gain : R) : R :=
   (Rminus interp fixed_gain).
-(* psiaudio/calibration.py:243  FlatCalibration.get_mean_sf *)
+(* psiaudio/calibration.py:241  FlatCalibration.get_mean_sf *)
 Definition flat_get_mean_sf (sens spl attenuation : R) : R :=
   (cal_get_sf sens spl attenuation).
-(* psiaudio/calibration.py:230  FlatCalibration.get_level *)
+(* psiaudio/calibration.py:228  FlatCalibration.get_level *)
 Definition flat_get_level (sens voltage : R) : R :=
   (Rmult voltage (util_dbi sens 1)).
-(* psiaudio/calibration.py:154  FlatCalibration.unity *)
+(* psiaudio/calibration.py:152  FlatCalibration.unity *)
 Definition flat_unity : R :=
   0.
-(* psiaudio/calibration.py:168  FlatCalibration.from_pascals *)
+(* psiaudio/calibration.py:166  FlatCalibration.from_pascals *)
 Definition flat_from_pascals (magnitude vrms : R) : R :=
   (Rminus (Rminus (util_db magnitude 1) (util_db (Rdiv 1 50000) 1)) (util_db vrms 1)).
-(* psiaudio/calibration.py:188  FlatCalibration.from_db *)
+(* psiaudio/calibration.py:186  FlatCalibration.from_db *)
 Definition flat_from_db (level vrms : R) : R :=
   (Rminus level (util_db vrms 1)).
-(* psiaudio/calibration.py:221  FlatCalibration.from_spl *)
+(* psiaudio/calibration.py:219  FlatCalibration.from_spl *)
 Definition flat_from_spl (spl vrms : R) : R :=
   (Rminus spl (util_db vrms 1)).
-(* psiaudio/calibration.py:217  FlatCalibration.as_attenuation *)
+(* psiaudio/calibration.py:215  FlatCalibration.as_attenuation *)
 Definition flat_as_attenuation (vrms : R) : R :=
   (flat_from_db 0 vrms).
-(* psiaudio/calibration.py:206  FlatCalibration.from_mv_pa *)
+(* psiaudio/calibration.py:204  FlatCalibration.from_mv_pa *)
 Definition flat_from_mv_pa (mv_pa : R) : R :=
   (Rminus (util_db (Rdiv 1 (Rmult mv_pa (Rdiv 1 1000))) 1) (util_db (Rdiv 1 50000) 1)).
-(* psiaudio/calibration.py:213  FlatCalibration.to_mv_pa *)
+(* psiaudio/calibration.py:211  FlatCalibration.to_mv_pa *)
 Definition flat_to_mv_pa (sensitivity : R) : R :=
   (Rdiv 1000 (util_dbi (Rplus sensitivity (util_db (Rdiv 1 50000) 1)) 1)).
-(* psiaudio/calibration.py:250  BaseFrequencyCalibration.from_pascals *)
+(* psiaudio/calibration.py:248  BaseFrequencyCalibration.from_pascals *)
 Definition freq_from_pascals (magnitude vrms : R) : R :=
   (Rminus (Rminus (util_db magnitude 1) (util_db (Rdiv 1 50000) 1)) (util_db vrms 1)).
-(* psiaudio/calibration.py:270  BaseFrequencyCalibration.from_db *)
+(* psiaudio/calibration.py:268  BaseFrequencyCalibration.from_db *)
 Definition freq_from_db (level vrms : R) : R :=
   (Rminus level (util_db vrms 1)).
-(* psiaudio/calibration.py:291  BaseFrequencyCalibration.from_spl *)
+(* psiaudio/calibration.py:289  BaseFrequencyCalibration.from_spl *)
 Definition freq_from_spl (spl vrms : R) : R :=
   (freq_from_db spl vrms).
